@@ -122,3 +122,39 @@ impl Timer {
 //@ item src/sources/timer.rs / impl EventSource for Timer / fn unregister props=C05,C07
 //@ enditem
 //@ close
+
+//@ region timeout_future_prelude props=C05
+#[verifier::external_type_specification] #[verifier::external_body]
+pub struct ExWaker(std::task::Waker);
+#[verifier::external_type_specification] #[verifier::external_body]
+pub struct ExContext<'a>(std::task::Context<'a>);
+#[verifier::external_type_specification] #[verifier::accept_recursive_types(T)]
+pub struct ExTaskPoll<T>(std::task::Poll<T>);
+pub uninterp spec fn cx_waker(cx: &std::task::Context<'_>) -> std::task::Waker;
+pub assume_specification<'a, 'b> [std::task::Context::<'a>::waker] (cx: &'b std::task::Context<'a>) -> (r: &'a std::task::Waker)
+    ensures *r == cx_waker(cx);
+pub assume_specification [<std::task::Waker as Clone>::clone] (w: &std::task::Waker) -> (r: std::task::Waker)
+    ensures r == *w;
+//@ endregion
+//@ item src/sources/timer.rs / struct TimeoutFuture props=C05
+//@ enditem
+impl TimeoutFuture {
+//@ slice src/sources/timer.rs / impl std::future::Future for TimeoutFuture / fn poll :: body props=C05 name=TimeoutFuture::poll
+//@ rw R21 * <<match self.deadline>> => <<match slf.deadline>>
+//@ rw R10 * <<self.waker.borrow_mut()>> => <<waker_cell>>
+//@ sig
+    /// S1 slice: whole body of `<TimeoutFuture as Future>::poll`. R21: the receiver `self: Pin<&mut Self>` (TimeoutFuture is
+    /// Unpin) becomes `slf: &mut TimeoutFuture`; R10: the borrow of the shared waker cell becomes `waker_cell`.
+    fn timeout_future_poll_body(slf: &mut TimeoutFuture, waker_cell: &mut Option<std::task::Waker>, cx: &mut std::task::Context<'_>) -> (r: std::task::Poll<()>)
+//@ spec
+        ensures
+            // C05 (never early): the future resolves only when a clock value read AT THIS POLL is at or past its deadline;
+            // an overflowed deadline (None) never resolves
+            r is Ready ==> (old(slf).deadline matches Some(d) && exists|now: Instant| clock_read(now) && #[trigger] nanos(now) >= nanos(d)),
+            // otherwise -- unless it can never fire -- the task's own waker is left in the cell the timer's callback wakes
+            (r is Pending && old(slf).deadline is Some) ==> *final(waker_cell) == Some(cx_waker(&*old(cx))),
+            final(slf).deadline == old(slf).deadline,
+//@ entry
+        proof { broadcast use axiom_instant_cmp; }
+//@ endslice
+}
